@@ -167,3 +167,53 @@ Proof.
   destruct (meta_frags_clean frags st0) as (st' & M & (E & I & T) & F); try assumption; [repeat split|].
   rewrite M, I, F. cbn [app ms_fields st0]. rewrite CP. cbn [negb]. rewrite T. reflexivity.
 Qed.
+
+(* ---------- sequences of header blocks on one connection: nothing carries over ---------- *)
+Lemma h2_meta_run_true mx sid frags : fst (h2_meta_run true mx sid frags) = h2_meta mx sid frags.
+Proof. unfold h2_meta_run, h2_meta. destruct (meta_frags _ frags); reflexivity. Qed.
+
+(* what one block yields does not depend on the flag the previous block left in the decoder *)
+Theorem h2_meta_block_independent e1 e2 mx sid frags :
+  fst (h2_meta_from e1 mx sid frags) = fst (h2_meta_from e2 mx sid frags) /\
+  fst (h2_meta_from e1 mx sid frags) = h2_meta mx sid frags.
+Proof. split; [reflexivity|apply h2_meta_run_true]. Qed.
+
+(* so a sequence read through one Framer is block by block what each block alone gives, up to the
+   first connection error - whatever was rejected or truncated before *)
+Definition is_conn_err (r : meta_res) : bool := match r with MErr (EConn _) => true | _ => false end.
+Fixpoint until_conn_err (l : list meta_res) : list meta_res :=
+  match l with [] => [] | r :: t => r :: if is_conn_err r then [] else until_conn_err t end.
+
+Lemma meta_run_none_iff e mx sid frags :
+  snd (h2_meta_run e mx sid frags) = None <-> is_conn_err (fst (h2_meta_run e mx sid frags)) = true.
+Proof.
+  unfold h2_meta_run. destruct (meta_frags _ frags) as [st|err] eqn:M.
+  - cbn [fst snd]. split; [discriminate|]. destruct (ms_invalid st); [discriminate|].
+    destruct (negb (check_pseudos (ms_fields st))); discriminate.
+  - cbn [fst snd is_conn_err]. apply meta_frags_err in M. subst. split; reflexivity.
+Qed.
+
+Theorem h2_meta_seq_independent mx blocks : forall e,
+  h2_meta_seq e mx blocks = until_conn_err (map (fun b => h2_meta mx (fst b) (snd b)) blocks).
+Proof.
+  induction blocks as [|[sid frags] blocks IH]; intro e; [reflexivity|].
+  unfold h2_meta_seq in *. cbn [h2_meta_seq_with map until_conn_err fst snd].
+  unfold h2_meta_from at 1.
+  pose proof (h2_meta_run_true mx sid frags) as R. pose proof (meta_run_none_iff true mx sid frags) as NI.
+  destruct (h2_meta_run true mx sid frags) as [res e'] eqn:RUN. cbn [fst snd] in *. subst res. f_equal.
+  destruct e' as [e'|].
+  - destruct (is_conn_err (h2_meta mx sid frags)) eqn:C; [destruct NI as [_ NI]; specialize (NI eq_refl); discriminate|].
+    apply IH.
+  - destruct NI as [NI _]. rewrite (NI eq_refl). reflexivity.
+Qed.
+
+(* without the re-enabling line a rejected block poisons the connection: the valid response that
+   follows it is delivered with an empty field list *)
+Theorem h2_meta_noreset_refuted :
+  let bad := (1, [(10, [(bs ":status", bs "200"); (bs "X-Upper", bs "v")])]) in
+  let good := (3, [(10, [(bs ":status", bs "200"); (bs "server", bs "x")])]) in
+  h2_meta_seq true 65536 [bad; good] =
+    [MErr (EStream 1 ErrCodeProtocol); MOk [(bs ":status", bs "200"); (bs "server", bs "x")] false] /\
+  h2_meta_seq_with h2_meta_from_noreset true 65536 [bad; good] =
+    [MErr (EStream 1 ErrCodeProtocol); MOk [] false].
+Proof. cbv zeta. split; vm_compute; reflexivity. Qed.
